@@ -100,10 +100,10 @@ Ltac norm_hyps :=
 
 Ltac fin1 :=
   unfold cas_matches, view_cas, has_body in *;
-  cbn -[N.add N.eqb same_view xs_eqb ostr_eqb fevent_eq_dec subset_names xattrs_agree_outside] in *; norm_hyps;
+  cbn -[N.add N.eqb same_view xs_eqb ostr_eqb fevent_eq_dec subset_names xattrs_agree_outside docx_string revx_string] in *; norm_hyps;
   rewrite ?same_view_refl, ?xs_eqb_refl, ?ostr_eqb_refl, ?N.eqb_refl, ?fevent_eq_refl, ?String.eqb_refl, ?Bool.eqb_reflx,
           ?orb_true_r, ?andb_true_r;
-  cbn -[N.add N.eqb same_view xs_eqb ostr_eqb fevent_eq_dec subset_names xattrs_agree_outside];
+  cbn -[N.add N.eqb same_view xs_eqb ostr_eqb fevent_eq_dec subset_names xattrs_agree_outside docx_string revx_string];
   try reflexivity; try (subst; cbn in *; congruence).
 
 Ltac brkG :=
